@@ -104,6 +104,13 @@ CLAIMED = {
     note="Level 'other': a definitely-false class or a signer/verifier bound disagreement is a proof of a C01 violation; their absence is not a proof of completeness. Quick = ML-DSA-44, thorough = all sets.",
     technique="abstract interpretation over monomorphic MIR: definite-result input classes, absorb-list agreement of sibling entry points, path facts on tracked call results (emit / accept conditions), decoder classes; piecewise-affine kernel exactness",
     engine="driver-ai"),
+ "C05": dict(
+    category="other",
+    text="Structural half of strong binding: every byte of the signature, the serialised public key, the message and the context is shown to reach a rejecting check or a hash input. B1 signature: decoder ranges tile the signature; c-tilde is compared in full and SampleInBall absorbs all of it; every Alg. 21 malformation class (counter above omega, counter below the running index, non-increasing positions, any non-zero unused byte incl. the last, at every polynomial) is definitely rejected directly and through verify/hash_verify/_internal_verify embedded in arbitrary signatures; out-of-bound z rejected. B2 public key: decode ranges tile the key, rho is the exact copy of bytes 0..32, tr = H(all PK_LEN bytes,64) (provenance tag of the absorbed item is the whole input), verification absorbs all 64 bytes of that tr first into mu and every ExpandA instance absorbs all of that rho. B3 message/context: whole message (or FIPS OID + digest), whole context, exact length byte and mode byte absorbed into mu for every context length (C06 rules, verify side). Not decided: bit-level injectivity of the z fields, and the hash argument (a changed input changes the output) which the property itself names as its premise.",
+    design_ref="DESIGN.md §4 C05",
+    note="Level 'other'. The malleability classes the property names (hint counters, zero padding) are decided for all members of each class; the class family covers the taxonomy, not all byte strings. Quick: hint/layout/key rules on all three sets, verify-side rules on ML-DSA-44.",
+    technique="abstract interpretation on abstract input classes (definite rejection) + slice-range tiling + whole-input absorb rules with exact-copy provenance",
+    engine="driver-ai"),
  "C08": dict(
     category="other",
     text="Clauses decided statically. R1: HintBitUnpack run on 78 (x3 sets) abstract input classes generated from (k, omega) - count above omega, count below the running index (every polynomial, two prefix shapes and the boundary member), non-increasing / repeated positions, non-zero unused bytes, each at first/middle/last position - every member of an error class is definitely rejected, every member of a canonical class definitely accepted. R2: encoder and decoder of sig/pk/sk use identical byte ranges that tile [0, LEN) and equal the FIPS 204 layout. R3: BitUnpack accepts exactly [-a, b] for every (a, b) in use (total when a+b+1 is a power of two). Not decided: re-encode identity for every accepted byte string and the bit-level bijection.",
@@ -148,7 +155,7 @@ man = {
  "engines": [
    {"name": "cfg-matrix", "path": "checks/c17.py", "serves_properties": ["C17"], "kind_free_text": "feature-configuration matrix: rustc lints + MIR fingerprints"},
    {"name": "driver-facts", "path": "driver/src/facts.rs", "serves_properties": ["C16", "C17"], "kind_free_text": "type/layout/drop-glue/call-graph facts"},
-   {"name": "driver-ai", "path": "driver/src/ai/", "serves_properties": ["C01", "C02", "C03", "C04", "C11", "C06", "C07", "C08", "C10", "C12", "C13", "C14", "C15", "C18"], "kind_free_text": "abstract interpreter over monomorphic MIR"},
+   {"name": "driver-ai", "path": "driver/src/ai/", "serves_properties": ["C01", "C02", "C03", "C04", "C05", "C11", "C06", "C07", "C08", "C10", "C12", "C13", "C14", "C15", "C18"], "kind_free_text": "abstract interpreter over monomorphic MIR"},
    {"name": "driver", "path": "driver/", "serves_properties": sorted(CLAIMED), "kind_free_text": "rustc_private driver over type-checked monomorphic MIR (facts, call graph, abstract interpretation)"},
  ],
  "checks": checks,
